@@ -178,6 +178,8 @@ class World(BaseWorld):
             if edits and rng.random() < c.get("p_refresh", 0.3):
                 edits.append(["R", 0])       # the documented remedy for cancelled variables: model.refresh(), then anneal
         md = {"type": mtype, "terms": [[enc_key(k), v] for k, v in items], "edits": edits}
+        if mtype != "dict" and rng.random() < c.get("p_scribble", 0.0):
+            md["scribble"] = [rng.randrange(6) for _ in range(rng.randint(1, 2))]
         if mtype not in MATRIX and mtype != "dict" and rng.random() < c.get("p_set_mapping", 0.15):
             # the user pins the label -> index mapping himself (documented: set_mapping / set_reverse_mapping), in any dict order
             labs = sorted({l for k, _ in items for l in k}, key=sort_key)
@@ -259,6 +261,8 @@ class World(BaseWorld):
         labels = sorted(reported, key=sort_key)
         new = []
         how = rng.choice(["zero_term", "grow_then_cancel", "change", "zero_term", "refresh"])
+        if rng.random() < self.cfg.get("p_scribble", 0.0):
+            how = "scribble"
         nz = [k for k in poly.t if k]
         if how == "refresh":
             if not any(k != "R" for k, _ in m.get("edits", [])) or m["edits"][-1][0] == "R":
@@ -274,11 +278,19 @@ class World(BaseWorld):
             new.append([[big], -1])
         elif labels and not new:
             new.append([enc_key((rng.choice(labels),)), rng.choice([1, -1, 2]) * self.cfg.get("coef_scale", 1)])
+        if how == "scribble":
+            sc = [rng.randrange(6)]
+            m["scribble"] = list(m.get("scribble", [])) + sc
+            m["live"] = True
+            m["new_edits"] = []
+            m["new_scribble"] = sc
+            return self.gen_anneal(rng, fn=fn, m=m)
         if not new:
             return None
         m["edits"] = list(m.get("edits", [])) + new
         m["live"] = True
         m["new_edits"] = new
+        m.pop("new_scribble", None)
         return self.gen_anneal(rng, fn=fn, m=m)
 
     def gen_anneal(self, rng, fn=None, m=None):
@@ -464,7 +476,35 @@ class World(BaseWorld):
                 obj.set_reverse_mapping({i: l for l, i in pairs})
             self.fault("user_defined_mapping")
             self.probe("mapping_pinned_on_refreshed_model")
+        if m["type"] != "dict":
+            for which in m.get("scribble", []):
+                self.scribble(obj, which)
         return obj
+
+    def scribble(self, obj, which):
+        """Injected fault: the caller scribbles over what the model's accessors handed him (documented to be copies)."""
+        try:
+            if which == 0:
+                obj.variables.clear()
+            elif which == 1:
+                v = obj.variables
+                if v:
+                    v.discard(max(v, key=sort_key))
+            elif which == 2 and hasattr(obj, "mapping"):
+                obj.mapping.clear()
+            elif which == 3 and hasattr(obj, "reverse_mapping"):
+                m = obj.reverse_mapping
+                m.clear()
+            elif which == 4 and hasattr(obj, "mapping"):
+                m = obj.mapping
+                for k in list(m):
+                    m[k] = m[k] + 7
+            else:
+                v = obj.variables
+                v.add(max(v) + 3 if v and all(isinstance(x, int) for x in v) else "scribbled")
+        except Exception as e:
+            raise HarnessError("scribble failed: %r" % (e,))
+        self.fault("accessor_result_scribbled")
 
     def snapshot(self, obj):
         if type(obj) is dict:
@@ -495,6 +535,8 @@ class World(BaseWorld):
                     self.fault("model_refreshed_after_cancellation")
                     continue
                 model[dec_key(k)] += delta
+            for which in md.get("new_scribble", []):
+                self.scribble(model, which)
             self.fault("live_model_edited_between_calls")
         else:
             model = self.build_model(md)
@@ -772,7 +814,7 @@ class World(BaseWorld):
             digest = ["unseeded", len(digest) if isinstance(digest, list) else 0]
         if record and (op["model"].get("keep") or op["model"].get("live")):
             self.last_live_op = (dict(op), digest)
-            self.live_desc = (op["fn"], {k: v for k, v in op["model"].items() if k not in ("keep", "live", "new_edits")})
+            self.live_desc = (op["fn"], {k: v for k, v in op["model"].items() if k not in ("keep", "live", "new_edits", "new_scribble")})
         if record:
             rec = dict(op)
             n = max(op.get("num_anneals", 1), 0)
@@ -793,7 +835,7 @@ class World(BaseWorld):
             return ["repeat", "none"]
         of = op["of"] % len(self.calls)
         orig = {k: v for k, v in self.calls[of].items() if not k.startswith("_")}
-        orig["model"] = {k: v for k, v in orig["model"].items() if k not in ("keep", "live", "new_edits")}
+        orig["model"] = {k: v for k, v in orig["model"].items() if k not in ("keep", "live", "new_edits", "new_scribble")}
         variant = op.get("variant")
         if variant == "float_schedule" and isinstance(orig.get("schedule"), list):
             # metamorphic twin: the same temperatures written as Python floats instead of ints (or the other way round where the
@@ -840,7 +882,7 @@ class World(BaseWorld):
         if last is None or getattr(self, "live_obj", None) is None:
             return ["relive", "none"]
         again = dict(last[0])
-        again["model"] = dict(again["model"], live=True, new_edits=[])
+        again["model"] = dict(again["model"], live=True, new_edits=[], new_scribble=[])
         again["model"].pop("keep", None)
         self.fault("same_object_annealed_again")
         ev = self.apply_anneal(again, record=False)
@@ -988,7 +1030,7 @@ def gen_cfg(rng, prop, tier):
         "p_gap": rng.choice([0.0, 0.3, 0.6]),
         "p_offset": rng.choice([0.0, 0.3, 0.7]),
         "p_set_mapping": rng.choice([0.0, 0.15, 0.4]), "p_live": rng.choice([0.0, 0.15, 0.4]), "p_stale": rng.choice([0.0, 0.0, 0.15, 0.4]), "p_zero_entry": rng.choice([0.0, 0.1, 0.3]),
-        "p_init": rng.choice([0.0, 0.4, 0.8, 1.0]),
+        "p_init": rng.choice([0.0, 0.4, 0.8, 1.0]), "p_scribble": rng.choice([0.0, 0.0, 0.1, 0.3]),
         "num_anneals": rng.choice([[1], [1, 2, 5], [-1, 0, 1, 2, 5], [2, 3], [1, 2, 5, 9], [7, 16, 33]]),
         "w_default_sched": rng.choice([0.3, 1, 3]),
         "w_explicit": rng.choice([1, 3, 6]),
@@ -1059,6 +1101,8 @@ def shrink_op(op):
                                    if not (k == "set_mapping" and (v or {}).get("when") == "end")}))
     if m.get("set_mapping"):
         out.append(dict(op, model={k: v for k, v in m.items() if k != "set_mapping"}))
+    if m.get("scribble") and not m.get("live"):
+        out.append(dict(op, model={k: v for k, v in m.items() if k != "scribble"}))
     if op.get("num_anneals", 1) > 1:
         out.append(dict(op, num_anneals=1))
     if isinstance(op.get("schedule"), list) and len(op["schedule"]) > 1:
